@@ -234,5 +234,53 @@ mod verif_inflate_stream {
         }
     }
 
+    // ------------------------------------------------------------------
+    // K-inf-reset : the three reset policies against a fresh InflateState, from a symbolic pre-state
+    // ------------------------------------------------------------------
+    fn havoc_state(s: &mut InflateState) -> usize {
+        s.dict_ofs = kani::any();
+        s.dict_avail = kani::any();
+        s.first_call = kani::any();
+        s.has_flushed = kani::any();
+        s.last_status = any_tinfl_status();
+        s.data_format = any_format();
+        let i: usize = kani::any();
+        kani::assume(i < TINFL_LZ_DICT_SIZE);
+        s.dict[i] = kani::any();
+        i
+    }
+    fn scalars_fresh(s: &InflateState) -> bool {
+        s.dict_ofs == 0 && s.dict_avail == 0 && s.first_call && !s.has_flushed && s.last_status == TINFLStatus::NeedsMoreInput
+    }
+    #[kani::proof]
+    fn k_inflate_reset_policies() {
+        // ZeroReset / FullReset: everything a fresh object has, including a zeroed window
+        {
+            let mut s = InflateState::new(DataFormat::Raw);
+            let i = havoc_state(&mut s);
+            let fmt0 = s.data_format;
+            s.reset_as(ZeroReset);
+            assert!(scalars_fresh(&s) && s.data_format == fmt0, "OBL:reset.zero_reset_restores_wrapper_fields_keeps_format [C18]");
+            assert!(s.dict[i] == 0, "OBL:reset.zero_reset_clears_window [C18]");
+        }
+        {
+            let mut s = InflateState::new(DataFormat::Raw);
+            let i = havoc_state(&mut s);
+            let fmt = any_format();
+            s.reset(fmt);
+            assert!(scalars_fresh(&s) && s.data_format == fmt, "OBL:reset.full_reset_restores_wrapper_fields_sets_format [C18]");
+            assert!(s.dict[i] == 0, "OBL:reset.full_reset_clears_window [C18]");
+        }
+        // MinReset
+        {
+            let mut s = InflateState::new(DataFormat::Raw);
+            let i = havoc_state(&mut s);
+            s.reset_as(MinReset);
+            assert!(scalars_fresh(&s), "OBL:reset.min_reset_restores_wrapper_fields [C18]");
+            // the decoder restarts at Start; its registers are re-initialised by the Start arm (k_arm_start_and_zlib_header)
+            assert!(s.dict[i] == 0, "OBL:reset.min_reset_clears_window [C18]");
+        }
+    }
+
     //@PLAYBACK@
 }
